@@ -13,7 +13,7 @@
 # (bytes of arrays, list contents, default-argument objects) snapshotted before / compared after; the call repeated;
 # the input re-presented Fortran-ordered, as a strided view of a larger array, with negative strides, and as int64
 # (integer-valued inputs below 2^20).  The judge (all results bit-identical /\ nothing mutated) lives in Coq.
-import copy, enum, importlib, inspect, struct, symtable, types
+import copy, enum, importlib, inspect, pickle, struct, symtable, types
 import core
 from core import *
 import gen
@@ -58,8 +58,120 @@ core.import_impl = _safe_import_impl
 # ---------------------------------------------------------------------------------------------------------------
 # dynamic part: re-presentations of the inputs
 
-TAGS = {0: 'C-ordered float64', 1: 'same call repeated', 2: 'Fortran-ordered', 3: 'strided view of a larger array',
-        4: 'int64', 5: 'negative-stride view'}
+TAGS = {0: 'C-ordered float64', 1: 'same call repeated (allocator poisoned with different garbage in between)', 2: 'Fortran-ordered',
+        3: 'strided view of a larger array', 4: 'int64', 5: 'negative-stride view',
+        6: 'same call after calls of the related functions of the module on sibling inputs (one process; base = the call alone)',
+        7: 'same array OBJECTS refilled in place (first used for a sibling curve of the same shape)'}
+
+LINK_EXC = ('NameError', 'UnboundLocalError', 'AttributeError')
+ARITY_MSG = re.compile(r'positional argument|required keyword-only argument|unexpected keyword argument|multiple values for (keyword )?argument|'
+                       r'takes no (keyword )?arguments|positional-only arguments? passed as keyword|missing \d+ required')
+
+
+def xcall(f, *a, **k):
+    """core.call, but the exception keeps its message and is classified: linking kind = NameError / UnboundLocalError /
+    AttributeError / TypeError with an arity or keyword message"""
+    try:
+        return ('ok', f(*a, **k))
+    except Timeout:
+        raise
+    except RecursionError:
+        return ('exc', ('RecursionError', False, ''))
+    except Exception as e:
+        name = type(e).__name__
+        msg = str(e)[:240]
+        link = isinstance(e, (NameError, AttributeError)) or (isinstance(e, TypeError) and bool(ARITY_MSG.search(msg)))
+        return ('exc', (name, bool(link), msg))
+
+
+def poison(rnd, extra=()):
+    """fill NumPy's small-block cache with garbage so that np.empty hands back non-zero memory, different garbage per round"""
+    import numpy as np
+    fills = [np.nan, 1e300, -7.25e18, 3.0e9 + 0.5, 2.0 ** -1040]
+    keep = []
+    sizes = list(range(1, 49)) + [int(e) for e in extra if 0 < int(e) < 4096]
+    for k in sizes:
+        for rep in range(8):
+            a = np.empty(k)
+            a.fill(fills[(rnd + rep + k) % 5])
+            keep.append(a)
+    del keep
+
+
+def in_child(fn):
+    """run fn() in a forked child of this process; returns its (picklable) value, or ('childerr', text)"""
+    r, w = os.pipe()
+    pid = os.fork()
+    if pid == 0:
+        code = 0
+        try:
+            os.close(r)
+            try:
+                res = fn()
+            except BaseException as e:   # noqa
+                res = ('childerr', '%s: %s' % (type(e).__name__, str(e)[:300]))
+            with os.fdopen(w, 'wb') as f:
+                pickle.dump(res, f)
+        except BaseException:            # noqa
+            code = 1
+        finally:
+            os._exit(code)
+    os.close(w)
+    try:
+        with os.fdopen(r, 'rb') as f:
+            data = f.read()
+    except BaseException:                # noqa — the worker's own time-out: do not leave the child behind
+        try:
+            os.kill(pid, 9)
+        except OSError:
+            pass
+        os.waitpid(pid, 0)
+        raise
+    os.waitpid(pid, 0)
+    if not data:
+        return ('childerr', 'no result from the child process')
+    return pickle.loads(data)
+
+
+class Rec(dict):
+    """a case that records which of its fields a call form reads"""
+    def __init__(self, *a):
+        dict.__init__(self, *a)
+        self.used = set()
+
+    def __getitem__(self, k):
+        self.used.add(k)
+        return dict.__getitem__(self, k)
+
+
+ENUMS = {'dist': ['shortest', 'perpendicular'], 'distfn': ['shortest_distance_points', 'perpendicular_distance_points'],
+         'order': ['triangle', 'area', 'segment'], 'cost': ['smape', 'rpd', 'rmspe', 'rmsle', 'r2'], 'mkcost': ['smape', 'r2', 'rmspe'],
+         'r2': ['classic', 'adjusted'], 'strategy': ['knees', 'expected', 'best', 'worst'],
+         'linkage': ['single_linkage', 'complete_linkage', 'centroid_linkage', 'average_linkage'],
+         'ranking': ['left', 'linear', 'right', 'hull'], 'ranking3': ['left', 'linear', 'right'], 'fit': ['best_fit', 'point_fit'],
+         'it': ['none', 'original', 'adjusted'], 'lcost': ['rss', 'rmse'], 'pd': ['Kneedle', 'ZScore', 'Significant', 'All'],
+         'cd': ['Increasing', 'Decreasing'], 'cc': ['Counterclockwise', 'Clockwise'], 'outlier': ['zscore', 'iqr', 'hampel'],
+         'detector': ['curvature', 'dfdt', 'menger', 'lmethod', 'kneedle'], 'sorted': [True, False], 'vertical': [False, True],
+         'extremes': [False, True], 'plot': [False, True]}
+# falsy / boundary values of the numeric parameters (dz = 0 never terminates by construction of the z-method loop: outside the domain)
+BOUNDARY = {'t': [0.0, 1.0, 0], 'tcm': [0.0, 1.0], 'tr2': [0.0, 1.0], 'tcl': [0.0, 1.0], 'tiou': [0.0, 1.0], 'tx': [1.0, 0.5, 1], 'ty': [0.0, 1.0],
+            'dx': [0.0, 1.0], 'dy': [0.0, 1.0], 'dz': [1.0, 3.0], 't1': [0.0, 1.0], 'tk': [0, 0.0, 1], 'sens': [0.0, 1, 0], 'k': [0, 1, 2],
+            't2': [0, 1, 2], 'limit': [0, 1, 2], 'tlist': [[], [0.0], [1.0, 0.0]], 'index': [1], 'b': [0]}
+SIBLING_NUM = {'t': 0.07, 'tcm': 0.2, 'tr2': 0.7, 'tcl': 0.3, 'tiou': 0.2, 'tx': 0.15, 'ty': 0.15, 'dx': 0.15, 'dy': 0.2, 'dz': 0.4, 't1': 0.05, 'tk': 0.7,
+               'sens': 1.5, 'k': 4, 't2': 4, 'limit': 7, 'tlist': [0.05, 0.5]}
+_USED = {}
+
+
+def used_keys(fn):
+    """the case fields a call form reads (dry build, nothing is called)"""
+    if fn not in _USED:
+        c = Rec(dyn_case(random.Random(0), fn, 'quick', n=8, family='grid'))
+        try:
+            FUNCS[fn](M(), c, Variant(0, False))
+            _USED[fn] = set(c.used)
+        except Exception:
+            _USED[fn] = set(ENUMS) | set(BOUNDARY)
+    return _USED[fn]
 
 
 class Variant:
@@ -352,7 +464,7 @@ FUNCS = _registry()
 def is_intvals(c):
     try:
         vals = [v for p in c['points'] for v in p] + [v for p in c['expected'] for v in p] + [v for r in c['rects'] for v in r] + list(c['distinct'])
-        return all(float(v).is_integer() and abs(v) < 2 ** 20 for v in vals)
+        return all(float(v).is_integer() and abs(v) < 2 ** 42 for v in vals)
     except Exception:
         return False
 
@@ -409,7 +521,7 @@ def chord_hug(rng, n=None):
     return 'chordhug-' + shape, [[float(a), float(b)] for a, b in zip(xs_, ys_)]
 
 
-def dyn_case(rng, fn, tier, n=None, family=None):
+def dyn_case(rng, fn, tier, n=None, family=None, j=None, stream='general'):
     big = tier == 'thorough'
     if n is None:
         n = rng.randint(6, 40 if big and rng.random() < 0.3 else 14)
@@ -483,7 +595,47 @@ def dyn_case(rng, fn, tier, n=None, family=None):
          'lcost': rng.choice(['rss', 'rmse']), 'tk': rng.choice([1.0, 0.5, 0.1]), 'sens': rng.choice([1.0, 0.5, 2.0]),
          'pd': rng.choice(['Kneedle', 'ZScore', 'Significant', 'All']), 'cd': rng.choice(['Increasing', 'Decreasing']),
          'cc': rng.choice(['Counterclockwise', 'Clockwise']), 'detector': rng.choice(['curvature', 'dfdt', 'menger', 'lmethod', 'kneedle'])}
+    c['stream'] = stream
+    if j is not None:
+        # enumerate, do not sample: the j-th case of a call form takes the j-th combination of the Enum / flag options it reads
+        used = sorted(k for k in used_keys(fn) if k in ENUMS)
+        for pos, key in enumerate(used):
+            opts = ENUMS[key]
+            c[key] = opts[(j + (j // len(opts)) * (pos + 1)) % len(opts)]
+    if stream == 'boundary':
+        jj = j or 0
+        for pos, key in enumerate(sorted(k for k in used_keys(fn) if k in BOUNDARY)):
+            vals = BOUNDARY[key]
+            c[key] = copy.deepcopy(vals[(jj + pos) % len(vals)])
+        if jj % 3 == 2 and 'a' not in used_keys(fn):
+            c['knees'] = []
+    if stream == 'bigint':
+        big_ints(rng, c)
     return c
+
+
+def big_ints(rng, c):
+    """integer-valued coordinates with magnitudes up to 2^41 (exact in float64): gaps above 3e9 make int32-style and squared int64
+    intermediates wrap, offsets near 2^40 expose loss of integer precision"""
+    sx, sy, x0, y0 = rng.choice([(2 ** 33, 1, 0, 0), (2 ** 35, 2 ** 20, 0, 0), (2 ** 32, 2 ** 33, 0, 0), (1, 2 ** 35, 0, 0), (1, 1, 2 ** 40, 2 ** 39),
+                                 (2 ** 34, 2 ** 34, 2 ** 38, 0), (2 ** 31 + 1, 3, 7, 2 ** 36)])
+    tr = lambda p: [float(int(p[0]) * sx + x0), float(int(p[1]) * sy + y0)]   # noqa
+    pts = [tr(p) for p in c['points']]
+    c['points'] = pts
+    # expected: the knee points themselves (perfect detection), sometimes one more curve point
+    exp = [list(pts[k]) for k in c['knees']]
+    if rng.random() < 0.4:
+        exp.append(list(pts[rng.randrange(len(pts))]))
+    rng.shuffle(exp)
+    c['expected'] = exp
+    c['rects'] = [[float(int(v) * sx) for v in r] for r in c['rects']]
+    c['distinct'] = [float(int(v) * sx + x0) for v in c['distinct']]
+    ysort = sorted(p[1] for p in pts)
+    c['y_range'] = [ysort[-1], ysort[0]]
+    c['family'] = str(c['family']) + '/bigint'
+    x0_, x1_, y0_, y1_ = pts[0][0], pts[-1][0], pts[0][1], pts[-1][1]
+    mm = (y0_ - y1_) / (x0_ - x1_)
+    c['coef'] = [y0_ - mm * x0_, mm]
 
 
 def truncate(c, m):
@@ -507,6 +659,144 @@ def truncate(c, m):
     ysort = sorted(p[1] for p in d['points'])
     d['y_range'] = [ysort[-1], ysort[0]]
     return d
+
+
+BIGINT_OVERFLOW_IN_BASELINE = set()
+
+
+def one_run(c, tag, rnd, build_case=None, reuse=None):
+    """one call of the case's call form on the re-presentation `tag`; returns [tag, unchanged, encoding, exception or None].
+    The allocator is poisoned (different garbage per round) right before the call."""
+    m = M()
+    build = FUNCS[c['fn']]
+    V = Variant(tag if tag < 6 else 0, tag == 4)
+    try:
+        f, a, kw = build(m, build_case or c, V)
+    except (ImportError, AttributeError, KeyError) as e:     # the public function / enum member no longer exists
+        return [tag, True, [8] + [ord(ch) for ch in type(e).__name__[:20]], None]
+    if reuse is not None:
+        a, kw = reuse(V, a, kw)
+    V.snapshot()
+    dsnap = defaults_of(f)
+    n = len(c['points'])
+    poison(rnd, [n - 1, n, n + 1, 2 * n, 3 * n, len(c['knees']), len(c['knees']) + 1, len(c['reduced']), len(c['expected'])] + list(range(1, 1 + len(c['knees']))))
+    st, val = xcall(f, *a, **kw)
+    unchanged = V.unchanged() and defaults_same(f, dsnap)
+    out = []
+    exc = None
+    if st == 'ok':
+        enc(val, out)
+    else:
+        out += [7, 1 if val[1] else 0]
+        enc(val[0], out)
+        exc = '%s: %s' % (val[0], val[2])
+    return [tag, bool(unchanged), out, exc]
+
+
+def sibling_curve(c):
+    """another curve of the same shape and the same x (y reversed and nudged): same n, same knees / reduced / expected"""
+    pts = c['points']
+    n = len(pts)
+    d = dict(c)
+    d['points'] = [[pts[i][0], pts[n - 1 - i][1] + float(i % 3)] for i in range(n)]
+    ysort = sorted(p[1] for p in d['points'])
+    d['y_range'] = [ysort[-1], ysort[0]]
+    return d
+
+
+def run_interference(c):
+    """In ONE process: (1) the case's own arrays are built; (2) the same call form is called with exactly one Enum / numeric
+    parameter changed at a time ON THE SAME ARRAY OBJECTS; (3) every call form of the same module (the case's own first) is called on
+    a sibling curve of the same shape (same knees / reduced / expected / parameters); (4) then the case's call -> tag 6;
+    (5) arrays first used for the sibling curve are refilled in place with the case's data and passed again -> tag 7."""
+    m = M()
+    fn = c['fn']
+    build = FUNCS[fn]
+    V0 = Variant(0, False)
+    try:
+        f, a0, kw0 = build(m, c, V0)
+    except (ImportError, AttributeError, KeyError) as e:
+        miss = [8] + [ord(ch) for ch in type(e).__name__[:20]]
+        return [[6, True, miss, None], [7, True, miss, None]]
+    own = [t[1] for t in V0.tracked]
+
+    def substitute(Vx, a, kw, target):
+        mp = {}
+        for tx, obj in zip(Vx.tracked, target):
+            if tx[0] == 'arr' and hasattr(obj, 'shape') and tx[1].shape == obj.shape and tx[1].dtype == obj.dtype:
+                mp[id(tx[1])] = obj
+        return [mp.get(id(x), x) for x in a], {k: mp.get(id(v), v) for k, v in kw.items()}
+
+    used = used_keys(fn)
+    for key in sorted(used):
+        if key in ENUMS:
+            opts = ENUMS[key]
+            alt = opts[(opts.index(c[key]) + 1) % len(opts)] if c[key] in opts else opts[0]
+        elif key in SIBLING_NUM:
+            alt = copy.deepcopy(SIBLING_NUM[key])
+        else:
+            continue
+        if alt == c[key]:
+            continue
+        d = dict(c)
+        d[key] = alt
+        try:
+            Vs = Variant(0, False)
+            fs, as_, kws = build(m, d, Vs)
+            as_, kws = substitute(Vs, as_, kws, own)
+            xcall(fs, *as_, **kws)
+        except Timeout:
+            raise
+        except Exception:
+            pass
+    sib = sibling_curve(c)
+    mod = fn.split('.')[0]
+    related = [fn] + [g for g in sorted(FUNCS) if g.split('.')[0] == mod and g != fn]
+    for g in related:
+        try:
+            Vg = Variant(0, False)
+            fg, ag, kwg = FUNCS[g](m, sib, Vg)
+            xcall(fg, *ag, **kwg)
+        except Timeout:
+            raise
+        except Exception:
+            pass
+    # (4) the case's call, on the arrays built first
+    V0.snapshot()
+    dsnap = defaults_of(f)
+    poison(6, [len(c['points']), len(c['knees'])])
+    st, val = xcall(f, *a0, **kw0)
+    r6 = _entry(6, V0.unchanged() and defaults_same(f, dsnap), st, val)
+    # (5) same objects, refilled in place
+    Vr = Variant(0, False)
+    fr, ar, kwr = build(m, sib, Vr)
+    xcall(fr, *ar, **kwr)
+    Vc = Variant(0, False)
+    fc, ac, kwc = build(m, c, Vc)
+    target = []
+    for tr_, tc in zip(Vr.tracked, Vc.tracked):
+        if tr_[0] == 'arr' and tc[0] == 'arr' and tr_[1].shape == tc[1].shape and tr_[1].dtype == tc[1].dtype:
+            tr_[1][...] = tc[1]
+            target.append(tr_[1])
+        else:
+            target.append(None)
+    ac, kwc = substitute(Vc, ac, kwc, target)
+    poison(7, [len(c['points'])])
+    st, val = xcall(fc, *ac, **kwc)
+    r7 = _entry(7, True, st, val)
+    return [r6, r7]
+
+
+def _entry(tag, unchanged, st, val):
+    out = []
+    exc = None
+    if st == 'ok':
+        enc(val, out)
+    else:
+        out += [7, 1 if val[1] else 0]
+        enc(val[0], out)
+        exc = '%s: %s' % (val[0], val[2])
+    return [tag, bool(unchanged), out, exc]
 
 
 # ---------------------------------------------------------------------------------------------------------------
@@ -760,31 +1050,71 @@ class C20:
             return cases
         self.want_warmup = True
         names = sorted(FUNCS)
-        per = {'quick': 2, 'search': 2, 'thorough': 40}.get(tier, 2)
-        for rep in range(per):
+        count = {}
+
+        def add(fn, stream, **kw):
+            jx = count.get(fn, 0)
+            count[fn] = jx + 1
+            cases.append(dyn_case(rng, fn, tier, j=jx, stream=stream, **kw))
+
+        Q = tier != 'thorough'
+        # 1. general round-robin (Enum / flag options of every call form are ENUMERATED through the j-th case of the form, over all streams)
+        for rep in range(2 if Q else 30):
             for fn in names:
-                cases.append(dyn_case(rng, fn, tier))
-        # dtype stress: small-integer curves that hug their chord (chord_hug), always presented as int64 AND float64: any intermediate
-        # that inherits the input's integer dtype is truncated there and flips sign-based decisions (concavity votes, arg-extrema, threshold
-        # tests).  Decision-making call forms (detectors, clustering, filters, simplifiers, z-method, hulls, matching) get the larger share.
-        hug_dec, hug_other = {'quick': (8, 2), 'search': (8, 2), 'thorough': (60, 15)}.get(tier, (8, 2))
+                add(fn, 'general')
+        # 2. dtype stress: small-integer curves that hug their chord (chord_hug), always presented as int64 AND float64: any intermediate
+        # that inherits the input's integer dtype is truncated there and flips sign-based decisions.  Decision-making call forms get the larger share.
+        hug_dec, hug_other = (6, 3) if Q else (40, 12)
         for fn in names:
             for rep in range(hug_dec if is_decision(fn) else hug_other):
-                cases.append(dyn_case(rng, fn, tier, family='chordhug'))
-        # layout stress: BLAS / SIMD kernels change path with the operand's size and memory order (the np.dot defect D15 shows
+                add(fn, 'chordhug', family='chordhug')
+        # 3. falsy / boundary values of every numeric parameter the call form reads (0, 0.0, 1, empty list; empty knee set)
+        for rep in range(3 if Q else 9):
+            for fn in names:
+                if any(k in BOUNDARY for k in used_keys(fn)):
+                    add(fn, 'boundary', family=rng.choice(['chordhug', 'grid', 'convex', 'uniform']))
+        # 4. interference: related functions of the module on sibling inputs first, same-object refill (see run_interference)
+        for rep in range(1 if Q else 8):
+            for fn in names:
+                for r2_ in range(2 if is_decision(fn) else 1):
+                    add(fn, 'interference', family=rng.choice(['chordhug', 'grid', 'convex', 'uniform', 'plateau']), n=rng.randint(6, 12))
+        # 5. integer magnitudes up to 2^41 for the int64-vs-float64 comparison
+        for rep in range(1 if Q else 8):
+            for fn in names:
+                if fn in BIGINT_OVERFLOW_IN_BASELINE:
+                    continue
+                if 'points' in used_keys(fn) or 'expected' in used_keys(fn) or 'distinct' in used_keys(fn):
+                    for r2_ in range(2 if is_decision(fn) or fn.startswith('evaluation.') else 1):
+                        add(fn, 'bigint', family=rng.choice(['chordhug', 'grid', 'plateau']), n=rng.randint(5, 12))
+        # 6. layout stress: BLAS / SIMD kernels change path with the operand's size and memory order (the np.dot defect D15 shows
         # only for Fortran-ordered operands of 3 or 7 rows, in about 2% of random inputs), so the distance primitives and the
         # simplifiers that slice 3-point sub-curves get many tiny random-double inputs
-        stress = {'quick': 130, 'search': 130, 'thorough': 1500}.get(tier, 130)
+        stress = 110 if Q else 1500
         hot = ['linear_fit.shortest_distance_points', 'linear_fit.shortest_distance_points/inner', 'linear_fit.perpendicular_distance_points',
                'rdp.order_triangle', 'rdp.order_area', 'knee_ranking.distances', 'evaluation.mae']
         for k in range(stress):
             for fn in hot[:2]:
-                cases.append(dyn_case(rng, fn, tier, n=rng.choice([3, 3, 3, 7, 11]), family='uniform'))
-            fn = hot[2 + k % (len(hot) - 2)]
-            cases.append(dyn_case(rng, fn, tier, n=rng.choice([3, 4, 5, 7]), family=rng.choice(['uniform', 'convex'])))
-        for k in range(stress // 3):
-            fn = ['rdp.rdp', 'rdp.rdp_fixed', 'rdp.grdp', 'rdp.mp_grdp'][k % 4]
-            cases.append(dyn_case(rng, fn, tier, n=rng.randint(5, 12), family='uniform'))
+                add(fn, 'layout', n=rng.choice([3, 3, 3, 7, 11]), family='uniform')
+            add(hot[2 + k % (len(hot) - 2)], 'layout', n=rng.choice([3, 4, 5, 7]), family=rng.choice(['uniform', 'convex']))
+        for k in range(stress // 4):
+            add(['rdp.rdp', 'rdp.rdp_fixed', 'rdp.grdp', 'rdp.mp_grdp'][k % 4], 'layout', n=rng.randint(5, 12), family='uniform')
+        # what was enumerated, for the evidence
+        seen, missing, per_class = {}, [], {}
+        for c in cases:
+            if c.get('kind') != 'dyn':
+                continue
+            per_class[c['stream']] = per_class.get(c['stream'], 0) + 1
+            for k_ in used_keys(c['fn']):
+                if k_ in ENUMS:
+                    seen.setdefault((c['fn'], k_), set()).add(c[k_])
+        for fn in names:
+            for k_ in sorted(used_keys(fn)):
+                if k_ in ENUMS:
+                    missing += ['%s.%s=%s' % (fn, k_, v) for v in ENUMS[k_] if v not in seen.get((fn, k_), set())]
+        self.link_note['dyn_cases_generated_by_class'] = per_class
+        self.link_note['dyn_enum_options_enumerated'] = sum(len(v) for v in seen.values())
+        self.link_note['dyn_enum_options_not_exercised'] = missing
+        self.link_note['dyn_call_forms'] = len(names)
         return cases
 
     def is_pkg_call(self, i):
@@ -800,23 +1130,31 @@ class C20:
     def warmup(self):
         if PKG_IMPORT_ERROR[0] or not self.want_warmup:
             return
-        # compile the numba specialisations (dtype x layout) once, before forking
-        rng = random.Random(1)
-        m = M()
-        for fn in sorted(FUNCS):
-            if not (fn.startswith('metrics.') or fn.startswith('linear_fit.') or fn in ('rdp.rdp', 'rdp.grdp', 'rdp.rdp_fixed', 'rdp.compute_cost_coef', 'multi_knee.multi_knee')):
+        # compile the numba specialisations (dtype x layout) once, before forking.  Only the jitted metrics are called, directly:
+        # the parent process must not have run any other package code (fresh-process comparisons fork from it).
+        import numpy as np
+        try:
+            mt = importlib.import_module('kneeliverse.metrics')
+        except Exception:
+            return
+        base = np.arange(1.0, 9.0)
+        ys_ = {'fC': base.copy(), 'fA': np.repeat(base, 2)[::2], 'fN': base[::-1].copy()[::-1], 'iC': base.astype(np.int64), 'iA': np.repeat(base.astype(np.int64), 2)[::2],
+               'iN': base.astype(np.int64)[::-1].copy()[::-1]}
+        hs_ = {'C': base * 0.5 + 1, 'A': np.repeat(base * 0.5 + 1, 2)[::2], 'N': (base * 0.5 + 1)[::-1].copy()[::-1]}
+        for fn in ['rmse', 'rmsle', 'rmspe', 'rpd', 'residuals', 'smape', 'r2']:
+            f = getattr(mt, fn, None)
+            if f is None:
                 continue
-            for cost in ['smape', 'rpd', 'rmspe', 'rmsle', 'r2']:
-                c = dyn_case(rng, fn, 'quick')
-                c['points'] = [[float(i), float((i * 7) % 5)] for i in range(8)]
-                c['cost'] = cost
-                c['mkcost'] = cost if cost in ('smape', 'r2', 'rmspe') else 'smape'
-                c['detector'] = 'menger'
-                for tag in [0, 2, 3, 5, 4]:
+            for y in ys_.values():
+                for h in hs_.values():
                     try:
-                        V = Variant(tag, tag == 4)
-                        f, a, kw = FUNCS[fn](m, c, V)
-                        call(f, *a, **kw)
+                        if fn == 'r2':
+                            for opt in mt.R2:
+                                f(y, h, opt)
+                        else:
+                            f(y, h)
+                            if fn in ('rmspe', 'rpd', 'smape'):
+                                f(y, h, 1e-16)
                     except Timeout:
                         raise
                     except Exception:
@@ -850,32 +1188,21 @@ class C20:
         if PKG_IMPORT_ERROR[0]:
             c['skip'] = 'package does not import'
             return c
-        m = M()
-        build = FUNCS[c['fn']]
         intv = is_intvals(c)
         c['intvals'] = intv
-        runs = []
-        for tag in [0, 1, 2, 3, 5] + ([4] if intv else []):
-            V = Variant(tag, tag == 4)
-            try:
-                f, a, kw = build(m, c, V)
-            except (ImportError, AttributeError, KeyError) as e:     # the public function / enum member no longer exists
-                runs.append([tag, True, [8] + [ord(ch) for ch in type(e).__name__[:20]]])
-                c['missing'] = True
-                continue
-            V.snapshot()
-            dsnap = defaults_of(f)
-            st, val = call(f, *a, **kw)
-            unchanged = V.unchanged() and defaults_same(f, dsnap)
-            out = []
-            if st == 'ok':
-                enc(val, out)
-            else:
-                out.append(7)
-                enc(val, out)
-            runs.append([tag, bool(unchanged), out])
-        c['runs'] = runs
+        if c.get('stream') == 'interference':
+            a_ = in_child(lambda: [one_run(c, 0, 0)])
+            b_ = in_child(lambda: run_interference(c))
+            if isinstance(a_, tuple) or isinstance(b_, tuple):
+                raise RuntimeError('interference child failed: %r %r' % (a_, b_))
+            runs = a_ + b_
+        else:
+            runs = [one_run(c, tag, k) for k, tag in enumerate([0, 1, 2, 3, 5] + ([4] if intv else []))]
+        c['exc'] = [[t, r[3]] for t, r in zip([r[0] for r in runs], runs) if r[3]]
+        c['runs'] = [r[:3] for r in runs]
+        c['missing'] = any(r[2][:1] == [8] for r in runs)
         c['raised'] = runs[0][2][0] in (7, 8)
+        c['link_exc'] = any(r[2][:2] == [7, 1] for r in runs)
         return c
 
     def local_only(self, i):
@@ -914,6 +1241,12 @@ class C20:
             d = {'dyn_int64_vs_float64_cases_by_function': c['fn']} if c.get('intvals') else {}
             if c.get('intvals') and str(c.get('family', '')).startswith('chordhug'):
                 d['dyn_chord_hugging_int_cases_by_function'] = c['fn']
+            d['dyn_cases_by_class'] = c.get('stream', 'general')
+            for t_, e_ in c.get('exc') or []:
+                d['dyn_exception_on_base_input'] = e_.split(':')[0]
+                break
+            if c.get('stream') in ('interference', 'boundary', 'bigint'):
+                d['dyn_%s_cases_by_function' % c['stream']] = c['fn']
             return {**d, 'kind': 'dyn', 'dyn_function': c['fn'], 'dyn_int64_variant': c.get('intvals'), 'dyn_outcome': 'function missing' if c.get('missing') else 'raised' if c.get('raised') else 'returned',
                     'dyn_family': c.get('family'), 'n': len(c['points']) // 8 * 8}
         return {'kind': c['kind']}
